@@ -342,7 +342,7 @@ func (r *inCategoryRatesRule) Validate(value any) error {
 		return nil
 	}
 	for _, k := range r.keys {
-		if key.Has(k) {
+		if key.HasPrefix(k) {
 			return nil
 		}
 	}
@@ -468,7 +468,7 @@ func (c *CategoryDef) RateDef(key cbc.Key) *RateDef {
 		}
 	}
 	for _, r := range c.Rates {
-		if key.Has(r.Key) {
+		if key.HasPrefix(r.Key) {
 			return r
 		}
 	}
